@@ -308,6 +308,18 @@ def pollConn (fuel : Nat) (c : Conn) : Conn × PRes :=
       | (_, _, m, t, .reuse rp) =>
         pollConn fuel { c with phase := .parseReq rp .start, env := { c.env with mutex := m, tr := t } }
 
+/-- bytes buffered in the parser of the phase -/
+def Phase.buffered : Phase → Nat
+  | .parseReq rp _ => rp.input.length
+  | .handler r _ => r.sp.raw.length + r.sp.parsed.length
+  | .closing r _ _ _ => r.sp.raw.length + r.sp.parsed.length
+  | .finished => 0
+
+/-- model fuel for one poll of the connection task: covers the worst case for the input that is
+available in this poll and for what the parser of the phase has buffered (`Props/C12Fuel`:
+`7·|input| + 5·|buffered| + 10` transitions suffice) -/
+def connFuel (c : Conn) : Nat := 100000 + 7 * c.env.tr.input.length + 5 * c.phase.buffered
+
 /-- The executor: polls the task only when it was woken — by a transient `Pending` of the transport
 (which wakes at once) or by the peer releasing input it was waiting for; `stopAt` raises the stop flag
 before that poll (which also wakes the task).  Returns the trace. -/
@@ -319,7 +331,7 @@ def runTask (fuel : Nat) (c : Conn) (pollNo : Nat) (stopAt : Option Nat) : Conn 
     let (env, _) := c.env.release
     let env := { env with tr := { env.tr with woken := false } }
     let c := { c with env := env.ev s!"|{pollNo}" }
-    match pollConn 100000 c with
+    match pollConn (connFuel c) c with
     | (c, .finished) => (c, "RET")
     | (c, .panic _) => (c, "PANIC")
     | (c, .pending) =>
